@@ -653,16 +653,27 @@ class MemoTranslator:
 
         def <fn>_prologue {F} (o : FloatOps F) (<params> : F) (m : <fn>_Memo F) : <fn>_Memo F
 
-    Accepted: the library's assert statements (skipped), declarations of the statics, `if (cond) { stores } [else { stores }]`
+    Accepted: the library's assert statements (skipped), declarations of the statics, `if (cond) { … } [else { … }]`
     and plain stores `static = expr`, where expressions are built from parameters, the statics, floating literals,
     + - * /, unary -, comparisons and calls of one-argument libm functions (kept abstract: `o.fn "sqrt" x`).
+    Also accepted (an early-return guard in front of the cache, e.g. the small-shape boost of cmb_random_std_gamma):
+      * `return expr;` — ends the prologue on that path (the cache is what it is at that point); `expr` must not call the
+        function itself;
+      * a declaration of an automatic local initialised by a CALL OF THE FUNCTION ITSELF, `T g = f(args);` — the cache
+        becomes what the recursive call leaves: `let m := self args m`; the translation carries fuel for this recursion
+        (`…_prologue_fuel`, fuel 0 leaves the cache unchanged) and `…_prologue` is the depth-2 instance; that depth 2 is enough
+        (the recursion argument no longer takes the guard) is a theorem of Props/C15.lean, under a stated IEEE hypothesis;
+      * a declaration of an automatic local initialised by any other expression: no effect on the cache, PROVIDED no function
+        called in it can reach the function itself (checked on the call graph of the translation unit).
     The rest of the body must not write the statics (checked)."""
     BIN = {"+": "add", "-": "sub", "*": "mul", "/": "div"}
     CMP = {"!=": "ne", "==": "eq", "<": "lt", "<=": "le", ">": "gt", ">=": "ge"}
 
-    def __init__(self, fn, inv):
+    def __init__(self, fn, inv, fns=None):
         self.fn = fn
         self.name = fn["name"]
+        self.fns = fns or {}           # name -> FunctionDecl with a body, for the re-entrancy check
+        self.recursive = False
         self.statics = [e for e in inv if e["scope"] == self.name]
         self.ids = {e["id"]: e["name"] for e in self.statics}
         for e in self.statics:
@@ -730,6 +741,43 @@ class MemoTranslator:
                 return '(o.fn "%s" %s)' % (callee["referencedDecl"]["name"], self.expr(n["inner"][1]))
         raise Untranslatable("memo prologue of %s: expression kind %s" % (self.name, k))
 
+    def callees(self, n, acc=None):
+        """names of the functions called somewhere below n"""
+        if acc is None:
+            acc = set()
+        if isinstance(n, dict):
+            if n.get("kind") == "CallExpr":
+                c = self.unwrap(n["inner"][0])
+                if c.get("kind") == "DeclRefExpr":
+                    acc.add(c["referencedDecl"].get("name"))
+                else:
+                    raise Untranslatable("memo prologue of %s: call through a pointer" % self.name)
+            for c in n.get("inner", []):
+                self.callees(c, acc)
+        return acc
+
+    def reaches_self(self, names):
+        """can one of the named functions (transitively, through functions with a body in this unit) call this function?"""
+        seen, todo = set(), list(names)
+        while todo:
+            f = todo.pop()
+            if f == self.name:
+                return True
+            if f in seen or f not in self.fns:
+                continue                # no body here: libm / another translation unit, which cannot name a static function's cache
+            seen.add(f)
+            todo += list(self.callees(self.fns[f]))
+        return False
+
+    def self_call(self, n):
+        """`f(args)` with f this very function -> the argument nodes, else None"""
+        n = self.unwrap(n)
+        if n.get("kind") == "CallExpr":
+            c = self.unwrap(n["inner"][0])
+            if c.get("kind") == "DeclRefExpr" and c["referencedDecl"].get("name") == self.name:
+                return n["inner"][1:]
+        return None
+
     def block(self, ss):
         if not ss:
             return "m"
@@ -741,6 +789,28 @@ class MemoTranslator:
             return self.block(rest)
         if k == "DeclStmt" and all(v.get("kind") == "VarDecl" and v.get("storageClass") == "static" for v in s["inner"]):
             return self.block(rest)
+        if k == "ReturnStmt":
+            if self.reaches_self(self.callees(s)):
+                raise Untranslatable("memo prologue of %s: the returned expression can call the function itself" % self.name)
+            return "m"
+        if k == "DeclStmt" and all(v.get("kind") == "VarDecl" and v.get("storageClass") in (None, "auto", "register") for v in s["inner"]):
+            out = []
+            for v in s["inner"]:
+                init = [c for c in v.get("inner", []) if not c.get("kind", "").endswith("Attr") and c.get("kind") != "FullComment"]
+                if not init:
+                    continue
+                args = self.self_call(init[0])
+                if args is not None:
+                    if any(self.reaches_self(self.callees(a)) for a in args):
+                        raise Untranslatable("memo prologue of %s: nested self call" % self.name)
+                    dbl = [p for p, t in self.params.values() if t == "double"]
+                    if len(args) != len(dbl) or len(dbl) != len(self.params):
+                        raise Untranslatable("memo prologue of %s: self call with non-double parameters" % self.name)
+                    self.recursive = True
+                    out.append("let m := self %s m" % " ".join(self.expr(a) for a in args))
+                elif self.reaches_self(self.callees(init[0])):
+                    raise Untranslatable("memo prologue of %s: the initialiser of %s can call the function itself" % (self.name, v.get("name")))
+            return "\n".join(out + [self.block(rest)])
         if k == "IfStmt":
             parts = s["inner"]
             c = self.expr(parts[0])
@@ -770,8 +840,13 @@ class MemoTranslator:
             if not init and any(not c.get("kind", "").endswith("Attr") for c in e["node"].get("inner", [])):
                 raise Untranslatable("initialiser of %s in %s is not a floating literal" % (e["name"], self.name))
             inits.append('%s := o.lit "%s"' % (e["name"], init[0]["value"] if init else "0"))
+        pat = "".join(", %s" % p for p in ps)
         out = ["structure %s (F : Type) where" % mt] + ["  %s : F" % e["name"] for e in self.statics] + [
             "", "def %s.init {F : Type} (o : FloatOps F) : %s F :=\n  { %s }" % (mt, mt, ", ".join(inits)), "",
-            "def %s_prologue {F : Type} (o : FloatOps F) %s(m : %s F) : %s F :=\n%s" % (
-                self.name, "".join("(%s : F) " % p for p in ps), mt, mt, ind(text)), ""]
+            "/-- fuel bounds the depth of the function's calls of itself inside the prologue (%s); fuel 0 leaves the cache as it is -/" % (
+                "it does call itself" if self.recursive else "it does not call itself: the fuel is not used"),
+            "def %s_prologue_fuel {F : Type} (o : FloatOps F) : Nat → %s%s F → %s F\n  | 0%s, m => m\n  | fuel_ + 1%s, m =>\n    let self := %s_prologue_fuel o fuel_\n%s" % (
+                self.name, "".join("F → " for _ in ps), mt, mt, "".join(", _" for _ in ps), pat, self.name, ind(text, 4)), "",
+            "def %s_prologue {F : Type} (o : FloatOps F) %s(m : %s F) : %s F :=\n  %s_prologue_fuel o 2 %sm" % (
+                self.name, "".join("(%s : F) " % p for p in ps), mt, mt, self.name, "".join("%s " % p for p in ps)), ""]
         return "\n".join(out), [e["name"] for e in self.statics]
